@@ -16,6 +16,10 @@ compared); not how a backend's dtype becomes a name (that depends on run-time na
         Real).  The oracle is the documentation.
   C03.3 comparison: the str arm compares with `==`, the re.Pattern arm calls a match method,
         a miss returns a non-empty message.
+  C03.5 no memoisation between an array's dtype and the verdict: no lru_cache/cache-decorated
+        function is reachable from the check entry points (a table keyed by dtype objects
+        conflates dtypes that compare equal but have different names -- longlong/int64 -- and
+        makes the verdict depend on what was checked before).
   C03.4 user categories: __init_subclass__ turns str/Pattern into a 1-tuple, other iterables
         into a tuple, and leaves the sentinel alone.
 """
@@ -115,9 +119,11 @@ def run(ctx: RuleContext):
     ctx.sub(check_tables, ctx)
     ctx.sub(check_names_exported, ctx, "C03.1")
     ctx.sub(check_docs_hierarchy, ctx)
+    ctx.sub(check_no_prefix_regex_for_strings, ctx)
     ctx.sub(check_comparison, ctx)
     ctx.sub(check_init_subclass, ctx)
     ctx.sub(check_name_extraction_shape, ctx)
+    ctx.sub(check_no_memo_between_dtype_and_verdict, ctx)
 
 
 FAMILY_RE = {
@@ -469,3 +475,35 @@ def check_name_extraction_shape(ctx):
             ctx.bad("C03.3", f, st, "the dtype name compared with the category is not derived from obj.dtype")
         else:
             ctx.ok("C03.3", f.qualname, f"dtype name derived from obj.dtype: `{short(st, 70)}`")
+
+
+def check_no_memo_between_dtype_and_verdict(ctx):
+    from ..callgraph import CallGraph
+    from ..roles import roles_for
+    from .c06 import check_no_memo_tables
+
+    r = roles_for(ctx.model)
+    check_no_memo_tables(ctx, r, CallGraph(ctx.model), "C03.5")
+
+
+def check_no_prefix_regex_for_strings(ctx):
+    """If string specifiers are turned into regular expressions (re.escape), the resulting
+    pattern must be applied with fullmatch: `.match` / `.search` accept any dtype name that merely
+    starts with / contains a specifier ('float8_e4m3fn' would accept 'float8_e4m3fnuz')."""
+    from ..callgraph import CallGraph
+
+    m = ctx.model
+    cg = CallGraph(m)
+    root = m.func("_array_types._MetaAbstractArray.__instancecheck_str__")
+    pred = cg.reachable([root], follow_refs=False, dispatch=False)
+    fs = [m.functions[q] for q in pred if q in m.functions and m.functions[q].module.short == "_array_types"]
+    escapes = [(f, c) for f in fs for c in m.calls_in(f) if norm(c.func) == "re.escape"]
+    if not escapes:
+        ctx.ok("C03.3", root.qualname, "string specifiers are never converted into regular expressions")
+        return
+    for f in fs:
+        for c in m.calls_in(f):
+            if isinstance(c.func, ast.Attribute) and c.func.attr in ("match", "search") and not (isinstance(c.func.value, ast.Name) and c.func.value.id == "cls_dtype"):
+                ctx.bad("C03.3", f, c, f"string dtype specifiers are compiled into a regular expression (re.escape in {escapes[0][0].name}) which is then applied with "
+                        f"`.{c.func.attr}`: a dtype name that merely starts with a specifier is accepted ('float8_e4m3fn' accepts 'float8_e4m3fnuz', 'int8' accepts 'int8x'); "
+                        "string specifiers must match exactly (== / fullmatch)")
